@@ -22,9 +22,15 @@ run selftest/mustpass/02_added_logging_PlayerFold.diff pass C10 C14
 run selftest/mustpass/03_equivalent_loop_bound_nextOccupiedSeatID.diff pass C04
 run selftest/mustpass/04_reordered_independent_resets_continueGame.diff pass C07 C15
 run selftest/mustpass/05_renamed_locals_and_temp_manager_PlayerBet.diff pass C17
+run selftest/mustpass/06_renamed_local_updatePlayerPositions.diff pass C06
+run selftest/mustpass/07_reordered_independent_inits_CreateTable.diff pass C12 C17
 for d in seeded/C*/; do
   id=$(basename $d)
   props=$(python3 -c "import json,sys; m=json.load(open('$d/meta.json')); print(' '.join(m.get('run_checks',[m['property']])))")
   run $d/patch.diff fail $props
+done
+for f in selftest/mustfail/*.diff; do
+  prop=$(basename $f | cut -d_ -f1)
+  run $f fail $prop
 done
 exit $rc
